@@ -197,6 +197,10 @@ func valText(v J) string {
 		return fmt.Sprintf("%v/%v", v["n"], v["d"])
 	case "acct", "asset", "str":
 		return v["v"].(string)
+	case "err": // a deliberately unreadable text: the raw text is carried in "v"
+		if t, ok := v["v"].(string); ok {
+			return t
+		}
 	}
 	panic(fmt.Sprint("valText: ", v))
 }
